@@ -299,7 +299,11 @@ P('C14', claimed=True, level='other', contracts=['seq_event_keys', 'seq_ppar'], 
               'number; Ppar.__embed__ keeps every child on its own timeline (re-queued at now + its own delta), '
               'replaces the yielded event\'s delta by the time until the next event of any child, inserts a rest of '
               'exactly that length when a child ends, and moves its clock to that time in both cases (loop '
-              'invariant over the abstract queue of C09). Bounded: key resolution compared with the documented chains '
+              'invariant over the abstract queue of C09). The mono events of Pmono: _prepare_event takes ONE fresh node id '
+              'from the resolved server (detuned frequency in place before the parameters are taken), _mono_on sends one '
+              '/s_new bundle at the latency for that PREPARED id, _mono_set one /n_set bundle for the same node with '
+              '(name, resolved value) per mono parameter in order (loop invariant), _mono_off a gate-off (/n_set id gate '
+              'value) or /n_free for the same node at latency + delay. Bounded: key resolution compared with the documented chains '
               'for all key subsets x 3 values x 3 scales on the real Scale/Tuning classes; played events and '
               'event stream players checked on the NRT score (one /s_new at logical time + latency with fresh '
               'id and the defined controls, gate-off at + sustain iff gated, rests send nothing, timelines of '
